@@ -33,7 +33,10 @@ const (
 	chunkTuples = 4096 // tuples per case (and per guest loop call)
 	inBase      = 65536
 	outBase     = inBase + chunkTuples*48
-	pmPages     = (outBase+chunkTuples*16)/65536 + 1
+	expOff      = chunkTuples * 16 // consumer forms: expected bits of tuple i at outBase+expOff+16*i
+	pmPages     = (outBase+2*chunkTuples*16)/65536 + 1
+	cPerFunc    = 32  // tuples per straight-line consumer function (15 instruction instances each)
+	cStride     = 8   // form Kc takes every cStride-th tuple of form K
 	kPerFunc    = 256 // tuples per straight-line K function
 	directCalls = 24  // tuples per case also called one by one through the Go API (form P)
 )
@@ -62,11 +65,12 @@ type finding struct {
 }
 
 type caseResult struct {
-	Evals    map[string]int64 `json:"evals"` // "engine/form" -> tuples compared
-	Imms     []string         `json:"imms"`  // immediates exercised (all forms, both engines)
-	Traps    int64            `json:"traps"` // evaluations whose reference outcome is a trap
-	NaNs     int64            `json:"nans"`  // evaluations with a NaN-class (non-deterministic) reference
-	Lanes    int64            `json:"lanes"` // lane-level comparisons
+	Evals    map[string]int64 `json:"evals"`  // "engine/form" -> tuples compared
+	Imms     []string         `json:"imms"`   // immediates exercised (all forms, both engines)
+	Traps    int64            `json:"traps"`  // evaluations whose reference outcome is a trap
+	NaNs     int64            `json:"nans"`   // evaluations with a NaN-class (non-deterministic) reference
+	Lanes    int64            `json:"lanes"`  // lane-level comparisons
+	Checks   int64            `json:"checks"` // consumer verdicts compared (forms Kc/Mc)
 	Findings []finding        `json:"findings,omitempty"`
 	Sample   any              `json:"sample,omitempty"`
 	Err      string           `json:"err,omitempty"`
@@ -230,6 +234,7 @@ func run(c *core.Ctx) int {
 		c.Count("evals_expecting_trap", cr.Traps)
 		c.Count("evals_with_nan_class_reference", cr.NaNs)
 		c.Count("lane_comparisons", cr.Lanes)
+		c.Count("consumer_verdicts", cr.Checks)
 		if oc.Sweep {
 			sweepDone[oc.Op]++
 			c.Count("sweep_pairs_16bit", int64(oc.Hi-oc.Lo)*65536)
@@ -297,6 +302,7 @@ func run(c *core.Ctx) int {
 	c.Assume("refsem is the oracle: validated against 47209 spec-test vectors (go test ./refsem) and against math/big / Go math on random inputs")
 	c.Assume("NaN results: canonical NaN (either sign) required when no operand is a non-canonical NaN, any arithmetic NaN otherwise; abs/neg/copysign/pmin/pmax/reinterpret/lane moves are bit-exact")
 	c.Assume("extra forms: Kl/Kr (only the first / only the last operand constant) for instructions with >=2 operands; Mxx (one loaded value as both operands) for binary instructions with equal operand types; Mif/Mbr/Msel (0/1 result consumed by if / br_if / select) for tests, comparisons, any_true/all_true; they count as required for the rows they apply to")
+	c.Assume("consumer forms Kc/Mc (required for every row with an i32 or f32 result): the result is consumed inside the guest by i32.ne/eq/lt_u/ge_u/gt_u/le_u/lt_s, i64.extend_i32_u/s+i64.eq, xor+eqz, and after passing through a local, a global, a call parameter and select, against the expected bits from refsem (f32 via i32.reinterpret_f32); results with spec-open NaN bits are skipped")
 	c.Assume("form K bakes a strided subset of each segment as constants (all tuples for 8-bit and unary 16-bit exhaustive segments); forms P and M run every tuple")
 	code := c.Finish(evals, int64(c.DistinctN("opcodes_covered")),
 		"one evaluation = one executed instruction instance (engine, form, immediate, operand tuple) compared with refsem; distinct = table rows exercised in all three forms on both engines (all lane immediates for lane ops)")
@@ -318,6 +324,9 @@ func requiredForms(op *wops.Op) []string {
 	}
 	if isBoolean(op) {
 		out = append(out, "Mif", "Mbr", "Msel")
+	}
+	if consumerForm(op) {
+		out = append(out, "Kc", "Mc")
 	}
 	return out
 }
@@ -490,6 +499,11 @@ func buildPM(op *wops.Op, imms [][]byte) []byte {
 	if sameOperandForm(op) {
 		variants = append(variants, "mx")
 	}
+	var cGlobal, cFn uint32
+	if consumerForm(op) {
+		variants = append(variants, "mc")
+		cGlobal, cFn = addConsumerSupport(m, op.Result)
+	}
 	for k, imm := range imms {
 		pc := &wenc.Code{}
 		for i := 0; i < ar; i++ {
@@ -501,7 +515,9 @@ func buildPM(op *wops.Op, imms [][]byte) []byte {
 		for _, v := range variants {
 			lc := &wenc.Code{}
 			lc.Loop(0x40)
-			lc.LocalGet(1)
+			if v != "mc" {
+				lc.LocalGet(1)
+			}
 			loads := func() {
 				for i := 0; i < ar; i++ {
 					lc.LocalGet(0)
@@ -521,6 +537,14 @@ func buildPM(op *wops.Op, imms [][]byte) []byte {
 				loadOp(lc, op.Params[0], 0)
 				lc.LocalTee(3).LocalGet(3)
 				op.Emit(lc, imm)
+			case "mc":
+				emitConsumers(lc, consumerEnv{res: op.Result, local: 3, global: cGlobal, cmpFn: cFn,
+					pushAddr: func() { lc.LocalGet(1) },
+					evalOp:   func() { loads(); op.Emit(lc, imm) },
+					exp32:    func() { lc.LocalGet(1).Mem(0x28, 0, expOff) },
+					exp64u:   func() { lc.LocalGet(1).Mem(0x35, 0, expOff) },
+					exp64s:   func() { lc.LocalGet(1).Mem(0x34, 0, expOff) },
+				})
 			case "bi":
 				loads()
 				op.Emit(lc, imm)
@@ -539,7 +563,9 @@ func buildPM(op *wops.Op, imms [][]byte) []byte {
 				lc.Select()
 				res = wops.I32
 			}
-			storeOp(lc, res, 0)
+			if v != "mc" {
+				storeOp(lc, res, 0)
+			}
 			lc.LocalGet(0).I32Const(stride).Op(0x6a).LocalSet(0)
 			lc.LocalGet(1).I32Const(16).Op(0x6a).LocalSet(1)
 			lc.LocalGet(2).I32Const(1).Op(0x6b).LocalTee(2)
@@ -547,6 +573,9 @@ func buildPM(op *wops.Op, imms [][]byte) []byte {
 			var locals []wenc.ValType
 			if v == "mx" {
 				locals = []wenc.ValType{op.Params[0].ValType()}
+			}
+			if v == "mc" {
+				locals = []wenc.ValType{op.Result.ValType()}
 			}
 			m.ExportFunc(sprintf("%s%d", v, k), m.AddFunc(loopSig, nil, locals, lc.B))
 		}
@@ -579,12 +608,14 @@ func kIsConst(variant string, p, ar int) bool {
 // idx[j*kPerFunc ...] and stores result i at 16*(vi*n+i); "<v>t<j>"() evaluates a
 // single tuple that is expected to trap. Non-constant operands of the mixed
 // variants come from a data segment.
-func buildK(op *wops.Op, imm []byte, tuples []tuple, idx []int, trapIdx []int) ([]byte, int) {
+// cSel lists positions q in idx whose tuples also get the consumer form Kc (verdict
+// bytes of the j-th selected tuple at 16*(len(vars)*n+j)); exp gives their expected bits.
+func buildK(op *wops.Op, imm []byte, tuples []tuple, idx []int, trapIdx []int, cSel []int, exp func(q int) uint32) ([]byte, int) {
 	m := &wenc.Module{}
 	ar := len(op.Params)
 	vars := kVariants(op)
 	n := len(idx)
-	opBase := 16 * n * len(vars)
+	opBase := 16 * (n*len(vars) + len(cSel))
 	all := append(append([]int(nil), idx...), trapIdx...)
 	data := make([]byte, 16*ar*len(all))
 	for i, ti := range all {
@@ -606,6 +637,30 @@ func buildK(op *wops.Op, imm []byte, tuples []tuple, idx []int, trapIdx []int) (
 				c.I32Const(int32(opBase + 16*(i*ar+p)))
 				loadOp(c, op.Params[p], 0)
 			}
+		}
+	}
+	if len(cSel) > 0 {
+		g, fn := addConsumerSupport(m, op.Result)
+		cbase := 16 * n * len(vars)
+		for lo, j := 0, 0; lo < len(cSel); lo, j = lo+cPerFunc, j+1 {
+			hi := lo + cPerFunc
+			if hi > len(cSel) {
+				hi = len(cSel)
+			}
+			c := &wenc.Code{}
+			for k := lo; k < hi; k++ {
+				k, q := k, cSel[k]
+				e := exp(q)
+				emitConsumers(c, consumerEnv{res: op.Result, local: 0, global: g, cmpFn: fn,
+					pushAddr: func() { c.I32Const(int32(cbase + 16*k)) },
+					evalOp:   func() { operands(c, "K", q); op.Emit(c, imm) },
+					exp32:    func() { c.I32Const(int32(e)) },
+					exp64u:   func() { c.I64Const(int64(uint64(e))) },
+					exp64s:   func() { c.I64Const(int64(int32(e))) },
+				})
+			}
+			c.End()
+			m.ExportFunc(sprintf("Kc%d", j), m.AddFunc(nil, nil, []wenc.ValType{op.Result.ValType()}, c.B))
 		}
 	}
 	nf := 0
@@ -875,8 +930,28 @@ func (rn *runner) runImm(k int, imm []byte, tuples []tuple, sg seg, base int) {
 	}
 	var kbin []byte
 	var nk int
+	// consumer forms: tuples with one well-defined expected value
+	var cSel []int // positions in kIdx (form Kc)
+	var cIdx []int // tuple indexes (form Mc)
+	if consumerForm(op) {
+		for _, i := range okIdx {
+			if refs[i].Deterministic() {
+				cIdx = append(cIdx, i)
+			}
+		}
+		nth := 0
+		for q, i := range kIdx {
+			if refs[i].Deterministic() {
+				if nth%cStride == 0 {
+					cSel = append(cSel, q)
+				}
+				nth++
+			}
+		}
+	}
+	cWant := consumerWant()
 	if len(kIdx)+len(kTrap) > 0 {
-		kbin, nk = buildK(op, imm, tuples, kIdx, kTrap)
+		kbin, nk = buildK(op, imm, tuples, kIdx, kTrap, cSel, func(q int) uint32 { return expectedBits(refs[kIdx[q]]) })
 	}
 	stride := 16 * ar
 	buf := make([]byte, len(okIdx)*stride)
@@ -936,6 +1011,32 @@ func (rn *runner) runImm(k int, imm []byte, tuples []tuple, sg seg, base int) {
 				rn.checkTrap(e.name, lf.form, imm, tuples[i], refs[i], err, mem)
 				rn.res.Evals[e.name+"/"+lf.form]++
 				rn.res.Traps++
+			}
+		}
+		// ---- form Mc: result consumed in the guest together with the expected bits
+		if len(cIdx) > 0 {
+			cbuf := make([]byte, len(cIdx)*stride)
+			ebuf := make([]byte, len(cIdx)*16)
+			for j, i := range cIdx {
+				for p := 0; p < ar; p++ {
+					putVal(cbuf[j*stride+16*p:], tuples[i][p])
+				}
+				putVal(ebuf[16*j:], refsem.Val{Lo: uint64(expectedBits(refs[i]))})
+			}
+			mem.Write(inBase, cbuf)
+			mem.Write(outBase+expOff, ebuf)
+			mem.Write(outBase, make([]byte, len(cIdx)*16))
+			if _, err := mod.ExportedFunction(sprintf("mc%d", k)).Call(ctx, inBase, outBase, uint64(len(cIdx))); err != nil {
+				rn.report(e.name, "Mc", "wrong-trap", imm, tuples[cIdx[0]], refs[cIdx[0]], "error in a batch of tuples (first shown): "+core.Trunc(err.Error(), 200), "")
+			} else {
+				out, _ := mem.Read(outBase, uint32(16*len(cIdx)))
+				for j, i := range cIdx {
+					if got := out[16*j : 16*j+16]; string(got) != string(cWant[:]) {
+						rn.report(e.name, "Mc", "wrong-result", imm, tuples[i], refs[i], "consumers disagree: "+describeConsumerMismatch(got), "")
+					}
+				}
+				rn.res.Evals[e.name+"/Mc"] += int64(len(cIdx))
+				rn.res.Checks += int64(len(cIdx) * len(consumerChecks))
 			}
 		}
 		// ---- form Mxx: operand 0 of every tuple as both operands
@@ -1018,6 +1119,26 @@ func (rn *runner) runImm(k int, imm []byte, tuples []tuple, sg seg, base int) {
 				return
 			}
 			kmem := kmod.Memory()
+			for lo, j := 0, 0; lo < len(cSel); lo, j = lo+cPerFunc, j+1 {
+				hi := lo + cPerFunc
+				if hi > len(cSel) {
+					hi = len(cSel)
+				}
+				first := kIdx[cSel[lo]]
+				if _, err := kmod.ExportedFunction(sprintf("Kc%d", j)).Call(ctx); err != nil {
+					rn.report(e.name, "Kc", "wrong-trap", imm, tuples[first], refs[first], "error in a straight-line consumer function (first tuple shown): "+core.Trunc(err.Error(), 200), "")
+					continue
+				}
+				out, _ := kmem.Read(uint32(16*(len(kVariants(op))*len(kIdx)+lo)), uint32(16*(hi-lo)))
+				for q := lo; q < hi; q++ {
+					i := kIdx[cSel[q]]
+					if got := out[16*(q-lo) : 16*(q-lo)+16]; string(got) != string(cWant[:]) {
+						rn.report(e.name, "Kc", "wrong-result", imm, tuples[i], refs[i], "consumers disagree: "+describeConsumerMismatch(got), "")
+					}
+				}
+				rn.res.Evals[e.name+"/Kc"] += int64(hi - lo)
+				rn.res.Checks += int64((hi - lo) * len(consumerChecks))
+			}
 			for vi, v := range kVariants(op) {
 				for j := 0; j < nk; j++ {
 					lo, hi := j*kPerFunc, (j+1)*kPerFunc
